@@ -69,8 +69,9 @@ class SubCheck:
     def __init__(self, name, run_case, strategy=None, enumerate_cases=None,
                  quick=200, thorough=5000, rule="", required_labels=(),
                  enum_tiers=("quick", "thorough"), max_shards=None,
-                 enum_quick_limit=None):
+                 enum_quick_limit=None, opt_pass=True):
         self.name = name
+        self.opt_pass = opt_pass              # also run one shard under `python -O`
         self.run_case = run_case
         self.strategy = strategy              # callable returning a strategy
         self.enumerate_cases = enumerate_cases  # callable(tier) -> iterator
@@ -278,6 +279,33 @@ def _shard_job(modname, subname, tier, shard, nshards, seed, budget_s):
     return result
 
 
+def _opt_shard_job(modname, subname, tier, shard, nshards, seed, budget_s):
+    """One more shard of the sub-check, executed by `python -O` (asserts stripped, __debug__ False): the property is
+    not allowed to depend on the interpreter's optimisation switch.  Runs in a worker; returns a result dict."""
+    import subprocess
+    code = ("import sys, json; from vlib.core import _shard_job; a = json.load(sys.stdin); r = _shard_job(*a); "
+            "sys.stdout.write('\\n@@RESULT@@' + json.dumps(r, default=str))")
+    args = [modname, subname, tier, shard, nshards, seed, budget_s]
+    env = dict(os.environ, VERIF_OPT_PASS='child')
+    env.pop('PYTHONOPTIMIZE', None)
+    try:
+        p = subprocess.run([sys.executable, '-O', '-c', code], input=json.dumps(args), text=True, env=env,
+                           stdout=subprocess.PIPE, stderr=subprocess.PIPE, timeout=budget_s + 600, cwd=VERIF_DIR)
+    except subprocess.TimeoutExpired:
+        st = Stats()
+        st.budget_exhausted = True
+        return {"subcheck": subname, "shard": shard, "violation": None, "harness_error": None, "stats": st.to_dict(), "mode": "python -O"}
+    if '@@RESULT@@' not in p.stdout:
+        st = Stats()
+        return {"subcheck": subname, "shard": shard, "violation": None, "stats": st.to_dict(), "mode": "python -O",
+                "harness_error": "python -O shard produced no result (exit {}): {}".format(p.returncode, p.stderr[-1500:])}
+    r = json.loads(p.stdout.split('@@RESULT@@', 1)[1])
+    r["mode"] = "python -O"
+    if r.get("violation"):
+        r["violation"]["message"] = "[under python -O] " + r["violation"]["message"]
+    return r
+
+
 def _run_hypothesis(sub, prop, n, seed, stats, result, deadline):
     import hypothesis
     from hypothesis import given, settings, HealthCheck, Phase, Verbosity
@@ -334,14 +362,16 @@ def load_replays(prop):
     return out
 
 
-def write_replay(prop, subname, case, message):
+def write_replay(prop, subname, case, message, python_flags=None):
     d = os.path.join(VERIF_DIR, "out", "replays")
     os.makedirs(d, exist_ok=True)
     h = hashlib.sha1(canonical(case).encode("utf-8", "replace")).hexdigest()[:10]
     path = os.path.join(d, "{}-{}-{}.json".format(prop, subname, h))
     with open(path, "w") as f:
-        json.dump({"property": prop, "subcheck": subname, "case": case, "message": message},
-                  f, indent=1, sort_keys=True, default=str)
+        rec = {"property": prop, "subcheck": subname, "case": case, "message": message}
+        if python_flags:
+            rec["python_flags"] = python_flags
+        json.dump(rec, f, indent=1, sort_keys=True, default=str)
     return path
 
 
@@ -349,6 +379,16 @@ def run_replay_file(mod, path):
     with open(path) as f:
         rec = json.load(f)
     sub = [s for s in mod.SUBCHECKS if s.name == rec["subcheck"]][0]
+    if "-O" in rec.get("python_flags", []) and not sys.flags.optimize:
+        # the case was found under `python -O`: replay it there
+        import subprocess
+        code = ("import sys, json, importlib; from vlib import core; mod = importlib.import_module(sys.argv[1]); "
+                "m = core.run_replay_file(mod, sys.argv[2]); sys.stdout.write('\\n@@RESULT@@' + json.dumps(m))")
+        p = subprocess.run([sys.executable, '-O', '-c', code, mod.__name__, path], text=True, cwd=VERIF_DIR,
+                           stdout=subprocess.PIPE, stderr=subprocess.PIPE, timeout=1800)
+        if '@@RESULT@@' not in p.stdout:
+            raise RuntimeError("replay under python -O failed: " + p.stderr[-1500:])
+        return json.loads(p.stdout.split('@@RESULT@@', 1)[1])
     try:
         execute(sub, rec["case"], mod.PROPERTY)
     except Violation as v:
@@ -435,10 +475,18 @@ def _main_for(modname, argv=None):
         for sh in range(nshards):
             jobs.append((modname, s.name, args.tier, sh, nshards,
                          derive_seed(seed, prop, s.name, sh), budget))
+    opt_jobs = []
+    if os.environ.get("VERIF_OPT_PASS", "1") not in ("0", "child") and not sys.flags.optimize:
+        # one more shard per sub-check under `python -O` (same share of the work as an ordinary shard)
+        for s in subs:
+            if not s.opt_pass:
+                continue
+            ns = [j[4] for j in jobs if j[1] == s.name][0]
+            opt_jobs.append((modname, s.name, args.tier, 0, ns, derive_seed(seed, prop, s.name, "opt"), budget))
     results = []
     ctx = multiprocessing.get_context("fork")
     with ProcessPoolExecutor(max_workers=NPROC, mp_context=ctx) as ex:
-        futs = [ex.submit(_shard_job, *j) for j in jobs]
+        futs = [ex.submit(_shard_job, *j) for j in jobs] + [ex.submit(_opt_shard_job, *j) for j in opt_jobs]
         for f in as_completed(futs):
             try:
                 results.append(f.result())
@@ -449,12 +497,21 @@ def _main_for(modname, argv=None):
     for s in subs:
         per_sub[s.name] = {"evaluations": 0, "hashes": set(), "labels": {}, "rejected": 0,
                            "excluded_known": {}, "samples": [], "exhaustive": True,
-                           "wall": 0.0, "budget_exhausted": False, "shards": 0}
+                           "wall": 0.0, "budget_exhausted": False, "shards": 0, "opt_evaluations": 0}
     for r in results:
         agg = per_sub[r["subcheck"]]
         if r.get("harness_error"):
             harness_errors.append("{} shard {}: {}".format(r["subcheck"], r["shard"], r["harness_error"]))
         st = r["stats"]
+        if r.get("mode") == "python -O":
+            # counted apart: it repeats the work of an ordinary shard under another interpreter mode
+            agg["opt_evaluations"] += st["evaluations"]
+            agg["wall"] = max(agg["wall"], st["wall"])
+            if r["violation"] is not None:
+                v = r["violation"]
+                path = write_replay(prop, r["subcheck"], v["case"], v["message"], python_flags=["-O"])
+                violations.append((r["subcheck"], path, v["message"]))
+            continue
         agg["shards"] += 1
         agg["evaluations"] += st["evaluations"]
         agg["hashes"].update(st["nontrivial_hashes"])
@@ -528,6 +585,7 @@ def _main_for(modname, argv=None):
                            "exhaustive": a["exhaustive"], "rejected": a["rejected"],
                            "excluded_known": a["excluded_known"], "labels": a["labels"],
                            "wall_s": round(a["wall"], 2), "shards": a["shards"],
+                           "evaluations_under_python_O": a["opt_evaluations"],
                            "budget_exhausted": a["budget_exhausted"]}
                     for name, a in per_sub.items()},
                 "vacuous_labels": vacuous,
@@ -543,8 +601,8 @@ def _main_for(modname, argv=None):
             json.dump(ev, f, indent=1, sort_keys=True, default=str)
         os.replace(tmp, os.path.join(VERIF_DIR, "evidence", prop + ".json"))
 
-    print("{} tier={} seed={} evaluations={} distinct_nontrivial={} wall={:.1f}s".format(
-        prop, args.tier, seed, total_eval, len(all_hashes), wall))
+    print("{} tier={} seed={} evaluations={} distinct_nontrivial={} wall={:.1f}s (+{} evaluations under python -O)".format(
+        prop, args.tier, seed, total_eval, len(all_hashes), wall, sum(a["opt_evaluations"] for a in per_sub.values())))
     for name, a in per_sub.items():
         print("  {:28s} eval={:7d} nontrivial={:7d} rejected={:6d} exhaustive={} wall={:.1f}s{}".format(
             name, a["evaluations"], len(a["hashes"]), a["rejected"], a["exhaustive"], a["wall"],
